@@ -24,6 +24,8 @@ pub const FLOOD_BASE: u64 = 1 << 38;
 pub const WARP_BASE: u64 = 1 << 37;
 /// Session indices in [PURE_BASE, WARP_BASE) are entry-pure long sessions (see `plan_pure`).
 pub const PURE_BASE: u64 = 1 << 36;
+/// Session indices in [PRESSURE_BASE, PURE_BASE) are pressure sessions (see `plan_pressure`).
+pub const PRESSURE_BASE: u64 = 1 << 35;
 
 pub const KINDS: &[&str] = &[
     "rekey",
@@ -41,6 +43,9 @@ pub const KINDS: &[&str] = &[
     "name-flood",
     "clock-warp",
     "entry-pure",
+    "thread-churn",
+    "cache-pressure",
+    "error-storm",
 ];
 
 #[derive(Clone, Debug, Serialize, Deserialize)]
@@ -280,6 +285,105 @@ fn plan_flood(p: &SessionParams, pool: &Pool) -> (Plan, SessionMeta) {
     (b.plan, meta)
 }
 
+/// Pressure session: a set of 150 victims (pool items) is expanded, then the process is put under
+/// one kind of pressure, then the victims are expanded again on the same thread.
+///   k % 3 == 0  thread churn: 10 000 requests, each on a brand-new thread that exits afterwards
+///               (per-thread state registered in a process-wide structure, thread ids that grow);
+///   k % 3 == 1  cache pressure: 5 000 distinct inputs in a row (bounded caches start evicting);
+///   k % 3 == 2  error storm: 5 000 requests that all end in an error (error counters, "too many
+///               errors" logic, residue of early returns).
+fn plan_pressure(p: &SessionParams, pool: &Pool) -> (Plan, SessionMeta) {
+    let k = p.idx - PRESSURE_BASE;
+    let seed = derive_seed(p.root, LABEL_SESSION, p.idx);
+    let mut client = Rng::new(derive_seed(seed, 1, 0));
+    let mut sched = Rng::new(derive_seed(seed, 2, 0));
+    let mut keys = Rng::new(derive_seed(seed, 3, 0));
+    let small = |r: &Request| r.item.len() + r.attr.len() < 600;
+    let mut victims: Vec<Request> = Vec::new();
+    while victims.len() < 150 {
+        match pool.any_request(&mut client) {
+            Some(r) if small(r) => victims.push(r.clone()),
+            Some(_) => {}
+            None => break,
+        }
+    }
+    let kind = ["thread-churn", "cache-pressure", "error-storm"][(k % 3) as usize];
+    let mut b = Builder { plan: Plan::default(), index: BTreeMap::new() };
+    let mut fired: BTreeMap<String, usize> = BTreeMap::new();
+    let mut first = true;
+    let mut deliver = |b: &mut Builder, r: &Request, thread: &str, kinds: &[&str]| {
+        let ri = b.req_idx(r);
+        let policy = if first {
+            first = false;
+            Policy::Keyed { k0: keys.next_u64(), k1: keys.next_u64() }
+        } else {
+            Policy::Keep
+        };
+        for kd in kinds {
+            *fired.entry(kd.to_string()).or_default() += 1;
+        }
+        b.plan.steps.push(Step { req: ri, thread: thread.into(), policy, kinds: kinds.iter().map(|s| s.to_string()).collect() });
+    };
+    for v in &victims {
+        deliver(&mut b, v, "main", &["main-thread"]);
+    }
+    match k % 3 {
+        0 => {
+            for _ in 0..10_000 {
+                let r = &victims[sched.below(victims.len().max(1))];
+                deliver(&mut b, r, "fresh", &[kind, "fresh-thread", "redeliver-later"]);
+            }
+        }
+        1 => {
+            let start = sched.below(pool.directed.len().max(1));
+            let mut n = 0;
+            let mut i = start;
+            while n < 5_000 && !pool.directed.is_empty() {
+                let r = &pool.directed[i % pool.directed.len()];
+                i += 7;
+                if small(r) {
+                    deliver(&mut b, r, "main", &[kind, "main-thread"]);
+                    n += 1;
+                }
+                if i > start + 7 * 60_000 {
+                    break;
+                }
+            }
+        }
+        _ => {
+            for i in 0..5_000 {
+                let e = if i % 2 == 0 || pool.directed.is_empty() {
+                    error_req(sched.below(ERROR_REQS.len()))
+                } else {
+                    // directed seeds from the unsupported-item / unknown-trait blocks mostly fail
+                    pool.directed[sched.below(pool.directed.len())].clone()
+                };
+                if small(&e) {
+                    deliver(&mut b, &e, "main", &[kind, "error-interleave", "main-thread"]);
+                }
+            }
+        }
+    }
+    for v in &victims {
+        deliver(&mut b, v, "main", &["redeliver-later", "main-thread"]);
+    }
+    for v in victims.iter().take(50) {
+        deliver(&mut b, v, "fresh", &["redeliver-later", "fresh-thread"]);
+    }
+    let meta = SessionMeta {
+        seed,
+        enabled: vec![kind.to_string()],
+        key_policy: "fixed".into(),
+        workers: 0,
+        working_set: b.plan.reqs.len(),
+        corpus_share_pct: 0,
+        length: b.plan.steps.len(),
+        fired,
+        mutation_ops: BTreeMap::new(),
+    };
+    (b.plan, meta)
+}
+
 /// Entry-pure long session: 60 000 (quick) / 200 000 (thorough) requests that all come through ONE entry point - the derive
 /// macro only (k % 3 == 0), the attribute macro on structs / enums only (1), or on impl items only
 /// (2) - over a working set of 64 items, half of them carrying comparison helpers. A host that
@@ -362,6 +466,9 @@ pub fn plan_session(p: &SessionParams, pool: &Pool) -> (Plan, SessionMeta) {
     }
     if p.idx >= PURE_BASE && p.idx < WARP_BASE {
         return plan_pure(p, pool);
+    }
+    if p.idx >= PRESSURE_BASE && p.idx < PURE_BASE {
+        return plan_pressure(p, pool);
     }
     if p.idx >= WARP_BASE && p.idx < FLOOD_BASE {
         let mut q = p.clone();
